@@ -339,6 +339,24 @@ theorem expanded_elements_unprocessed (procs : List (Nat × Nat)) (name esc n : 
 
 example : (expandBind [(1, 7), (3, 9)] 1 2 3).lookup (2, 3) = some 7 := by decide
 
+/-- **expanded_tuple_elements_processed**: element `j` of tuple `i` of an expanding tuple bind
+    carries the processor of the `j`-th column type under the key built from the *escaped* name —
+    the name the element has in the SQL — for every escaped name -/
+theorem expanded_tuple_elements_processed (tprocs : List (Nat × List (Option Nat))) (name esc n : Nat)
+    (ps : List (Option Nat)) (h : tprocs.lookup name = some ps) (i j p : Nat) (hi : i < n)
+    (hj : ps[j]? = some (some p)) :
+    ((esc, i + 1, j + 1), p) ∈ expandTupleBind tprocs name esc n := by
+  simp only [expandTupleBind, h, List.mem_flatMap, List.mem_range, List.mem_filterMap]
+  have hjl : j < ps.length := by
+    rcases Nat.lt_or_ge j ps.length with h1 | h1
+    · exact h1
+    · rw [List.getElem?_eq_none h1] at hj; cases hj
+  refine ⟨i, hi, j, hjl, ?_⟩
+  simp [List.getD, hj]
+
+example : (expandTupleBind [(1, [none, some 7])] 1 2 2).lookup (2, 2, 2) = some 7 ∧
+    (expandTupleBind [(1, [none, some 7])] 1 2 2).lookup (2, 1, 1) = none := by decide
+
 /-- **inserted_pk_matches_select**: for a primary-key type whose result processing undoes its
     bind processing, the key an INSERT reports on a lastrowid backend equals what a SELECT of
     that row returns — for an explicit key (stored as `bind v`) and for a generated one -/
